@@ -17,7 +17,7 @@ def root_var(p):
     if p is None:
         return None
     p = p.lstrip("&*")
-    m = re.match(r"^((?:[lpg]:)?[A-Za-z_][A-Za-z_0-9]*)", p)
+    m = re.match(r"^((?:[lpg]:)?[A-Za-z_][A-Za-z_0-9$]*)", p)
     return m.group(1) if m else None
 
 
